@@ -9,6 +9,13 @@ FLOATS = [0.0, -0.0, 1.0, -1.5, 1e21, 1e-7, 5e-324, 1.7976931348623157e308, 0.1,
           float("nan"), float("inf"), float("-inf"), -2.5e-300, 4.35, 1e22, 1e15 + 0.5]
 
 
+def count_text(c):
+    """a count is printed as the f64 nearest to it (the text format's numbers are floats), in plain integer notation with the
+    shortest digits that read back to that f64 — e.g. 2^64-1 as 18446744073709552000"""
+    from decimal import Decimal
+    return format(Decimal(repr(float(c))), "f").split(".")[0]
+
+
 def codes(s):
     return [ord(c) for c in s]
 
@@ -29,7 +36,7 @@ def expected_of(fams):
         ms = []
         for m in f["metrics"]:
             e = {"labels": [[codes(n), codes(v)] for n, v in m["labels"]], "ts": codes(str(m["ts"])) if m["ts"] != 0 else [],
-                 "val": "fin", "bk": [], "count": 0, "sum": "fin", "qs": []}
+                 "val": "fin", "bk": [], "count": [], "sum": "fin", "qs": []}
             t = f["type"]
             if t == "COUNTER":
                 e["val"] = num(m["counter"])
@@ -39,19 +46,19 @@ def expected_of(fams):
                 h = m["hist"]
                 seen_inf = False
                 for ub, cc in h["b"]:
-                    e["bk"].append({"le": num(ub), "cc": cc})
+                    e["bk"].append({"le": num(ub), "cc": codes(count_text(cc))})
                     seen_inf = seen_inf or ub["c"] == "+inf"
                 if not seen_inf:
-                    e["bk"].append({"le": "pinf", "cc": h["count"]})
+                    e["bk"].append({"le": "pinf", "cc": codes(count_text(h["count"]))})
                 e["sum"] = num(h["sum"])
-                e["count"] = h["count"]
+                e["count"] = codes(count_text(h["count"]))
             elif t == "SUMMARY":
                 su = m["summary"]
                 for q, v in su["q"]:
                     qc = num(q)
                     e["qs"].append({"q": qc, "v": num(v)})
                 e["sum"] = num(su["sum"])
-                e["count"] = su["count"]
+                e["count"] = codes(count_text(su["count"]))
             ms.append(e)
         exp.append({"name": codes(f["name"]), "help": codes(f["help"]), "type": codes(TYPES[f["type"]]), "metrics": ms})
     return exp, fin
@@ -73,12 +80,18 @@ def lit_metric(rnd, t, strings, floats, nl):
             cc += rnd.randint(0, 3)
             b.append([F(ub), cc])
         cnt = cc + rnd.randint(0, 2)
+        if rnd.random() < 0.2:
+            # counts over the whole u64 range (a custom collector may report any): 2^53+1 has no exact f64, 2^63 and 2^64-1 do not fit i64
+            big = rnd.choice([2 ** 53 + 1, 2 ** 63 - 1, 2 ** 63, 2 ** 64 - 1, 10 ** 19])
+            cnt = big
+            if b and rnd.random() < 0.7:
+                b[-1][1] = big - rnd.choice([0, 1])
         if rnd.random() < 0.15:
             b.append([F(float("inf")), cnt])       # explicit +Inf bucket supplied by a custom collector
         m["hist"] = {"count": cnt, "sum": F(rnd.choice(floats)), "b": b}
     else:
         qs = [[F(rnd.choice([0.5, 0.9, 0.99, 0.0, 1.0, float("nan")])), F(rnd.choice(floats))] for _ in range(rnd.randint(0, 3))]
-        m["summary"] = {"count": rnd.randint(0, 9), "sum": F(rnd.choice(floats)), "q": qs}
+        m["summary"] = {"count": rnd.choice([rnd.randint(0, 9), rnd.randint(0, 9), 2 ** 63, 2 ** 64 - 1]), "sum": F(rnd.choice(floats)), "q": qs}
     return m
 
 
